@@ -52,7 +52,11 @@ def _cc(src, obj, extra):
 def _gc(d, keep):
     """bound the cache: linked executables (~25 MB each with sanitizers and -g) are cheap to relink from cached objects, so only the
     24 most recently used unused ones stay; at most 120 unused objects stay (other buffer sizes / the tree before a change)."""
-    fs = [f for f in glob.glob(os.path.join(d, "*")) if f not in keep]
+    now = time.time()
+    def old(f):
+        try: return now - os.path.getmtime(f) > 3600       # another check (of another tree) may be running what it built or touched in the last hour
+        except OSError: return False
+    fs = [f for f in glob.glob(os.path.join(d, "*")) if f not in keep and old(f)]
     exes = sorted((f for f in fs if not f.endswith(".o")), key=os.path.getmtime)
     objs = sorted((f for f in fs if f.endswith(".o")), key=os.path.getmtime)
     for f in exes[:max(0, len(exes) - 24)] + objs[:max(0, len(objs) - 120)]:
